@@ -212,12 +212,26 @@ def repo_test_driver(prec="d", variant="verif"):
     and the event runtime: the existing tests become trace generators."""
     T = os.path.join(build.REPO, "TESTING")
     srcs = [os.path.join(T, f % prec) for f in ("p%sdrive.c", "sp_%sconvert.c", "p%sgst01.c", "p%sgst02.c", "p%sgst04.c", "p%sgst07.c", "p%sgssv.c", "p%sgssvx.c")]
-    import glob
-    srcs += sorted(glob.glob(os.path.join(T, "MATGEN", "*.c")))
-    return build.harness("repo_p%stest" % prec, srcs + ["verif_rt.c"], variant=variant, extra_link=["-I" + T], wrap=["pthread_mutex_unlock"])
+    # TESTING/MATGEN as an archive (members are pulled only when referenced, as in the repository's own build)
+    import glob, subprocess as sp
+    lib, cc, cflags = build.ensure(variant)
+    mg = os.path.join(os.path.dirname(lib), "libmatgen.a")
+    msrc = sorted(glob.glob(os.path.join(T, "MATGEN", "*.c")))
+    if not os.path.exists(mg) or any(os.path.getmtime(f) > os.path.getmtime(mg) for f in msrc):
+        od = os.path.join(os.path.dirname(lib), "matgen_o")
+        os.makedirs(od, exist_ok=True)
+        objs = []
+        for f in msrc:
+            o = os.path.join(od, os.path.basename(f)[:-2] + ".o")
+            r = sp.run([cc] + [x for x in cflags if not x.startswith("-include") and "verif_seams" not in x and not x.startswith("-DUSER_")] + ["-w", "-c", f, "-o", o], capture_output=True, text=True)
+            if r.returncode == 0:
+                objs.append(o)
+        sp.run(["ar", "crs", mg + ".tmp"] + objs, check=True)
+        os.replace(mg + ".tmp", mg)
+    return build.harness("repo_p%stest" % prec, srcs + ["verif_rt.c"], variant=variant, extra_link=["-I" + T, mg, "-lopenblas"], wrap=["pthread_mutex_unlock"])
 
 
-def run_repo_test(prec, args, outdir, name, perturb=0, timeout=900):
+def run_repo_test(prec, args, outdir, name, perturb=0, timeout=900, stdin_path=None):
     exe = repo_test_driver(prec)
     stream = os.path.join(outdir, name + ".stream.ndjson")
     if os.path.exists(stream):
@@ -226,7 +240,8 @@ def run_repo_test(prec, args, outdir, name, perturb=0, timeout=900):
     if perturb:
         e["VERIF_PERTURB"] = str(perturb)
     try:
-        p = subprocess.run([exe] + args, capture_output=True, text=True, env=e, timeout=timeout)
+        fin = open(stdin_path) if stdin_path else subprocess.DEVNULL
+        p = subprocess.run([exe] + args, stdin=fin, capture_output=True, text=True, env=e, timeout=timeout)
         rc = p.returncode
     except subprocess.TimeoutExpired:
         rc = -9
